@@ -54,7 +54,7 @@ def gen(rng, tier):
         if precise:
             cfg.lattice = sg.LATTICE + [1.2345678, 0.1234567891, 3.14159265, 1234567.25, 2.0000001]
         ast = sg.gen_formula(rng, cfg)
-        if sg.size(ast) >= 4 and sg.vars_of(ast):
+        if sg.size(ast) >= 4 and sg.vars_of(ast) and not (mode == 'on' and common.warmup_visible(ast)):
             break
     defs, top = sg.modularize(rng, ast, max_subs=3)
     sem, io = None, {}
@@ -149,6 +149,15 @@ def gen(rng, tier):
             n2 = rng.choice([1, 2, sc['n'], sc['n'] + 1, rng.randint(1, 10)])
             sc['again'] = {'n': n2, 'data': world.gen_trace(rng, vars_, n2)}
     return sc
+
+
+ENVELOPE_RULES = ['memory-past-above-delayed / partial-function-over-delayed (F08, F08b): a declared constant is a Constant node, its '
+                  'literal -2.0 is Negate(Constant); only the latter is delayed by pastify(), and in the F08 region the warm-up of the '
+                  'delayed operand stays visible after the horizon']
+
+
+def envelope(sc):
+    return common.warmup_visible(sc['ast']) if sc.get('pastify') else []
 
 
 def modular_desc(sc):
